@@ -45,7 +45,10 @@ def one(ctx, res: Result, hist, cfg, batch, init_tree=None):
     if bad:
         res.failures.append(Failure(
             what="replaying the delivered created/deleted/moved events does not reproduce the tree on disk", case=meta,
-            signature={"law": "replay", "dir_provenance": tags}, observed=bad, expected="replay(tree at start, events) == os.walk"))
+            signature={"law": "replay", "dir_provenance": tags,
+                       "cause": "stale-path-of-moved-out-directory-reused-before-first-read"
+                       if "first-seen-under-the-stale-path-of-a-directory-that-was-moved-out" in tags else "other"},
+            observed=bad, expected="replay(tree at start, events) == os.walk"))
     res.failures += pipecheck.thread_failures(run, stopped, meta, "C01")
     batch.append((meta, run, case))
 
